@@ -53,4 +53,51 @@ theorem chkU_ok (bits : Nat) (mode : Mode) (r : Int) (h0 : 0 ≤ r) (h1 : r < (2
     chkU bits mode r = Res.ok r.toNat := by
   unfold chkU; rw [if_pos ⟨h0, h1⟩]
 
+/-! ### running effectful translated code -/
+
+theorem run_bind {α β : Type} (m : M α) (f : α → M β) (os : Os) :
+    run (m >>= f) os = match run m os with
+      | (Res.ok v, os') => run (f v) os'
+      | (Res.panic w, os') => (Res.panic w, os') := rfl
+theorem run_pure {α : Type} (v : α) (os : Os) : run (pure v : M α) os = (Res.ok v, os) := rfl
+theorem run_lift {α : Type} (r : Res α) (os : Os) : run (MonadLiftT.monadLift r : M α) os = (r, os) := rfl
+theorem run_extU (name : String) (args : List Val) (os : Os) :
+    run (extU name args) os = (Res.ok (), { os with log := os.log ++ [(name, args)] }) := rfl
+theorem run_panicNow {α : Type} (msg : String) (os : Os) : run (panicNow msg : M α) os = (Res.panic msg, os) := rfl
+theorem run_extI_cons (name : String) (args : List Val) (i : Int) (rest : List Val) (log : List (String × List Val)) :
+    run (extI name args) { answers := Val.n i :: rest, log := log } =
+      (Res.ok i, { answers := rest, log := log ++ [(name, args)] }) := rfl
+theorem run_extN_cons (name : String) (args : List Val) (i : Int) (rest : List Val) (log : List (String × List Val)) :
+    run (extN name args) { answers := Val.n i :: rest, log := log } =
+      (Res.ok i.toNat, { answers := rest, log := log ++ [(name, args)] }) := rfl
+theorem run_extB_cons (name : String) (args : List Val) (l : List Nat) (rest : List Val) (log : List (String × List Val)) :
+    run (extB name args) { answers := Val.bs l :: rest, log := log } =
+      (Res.ok l, { answers := rest, log := log ++ [(name, args)] }) := rfl
+
+/-- sequencing lemmas in conditional form (rewriting under the `match` of `run_bind` makes the
+    kernel's type check of the motive blow up; these do not) -/
+theorem run_bind_ok {α β : Type} (m : M α) (f : α → M β) (os os' : Os) (v : α) (h : run m os = (Res.ok v, os')) :
+    run (m >>= f) os = run (f v) os' := by
+  rw [run_bind, h]
+theorem run_bind_panic {α β : Type} (m : M α) (f : α → M β) (os os' : Os) (w : String) (h : run m os = (Res.panic w, os')) :
+    run (m >>= f) os = (Res.panic w, os') := by
+  rw [run_bind, h]
+theorem run_bind_lift_ok {α β : Type} (r : Res α) (f : α → M β) (os : Os) (v : α) (h : r = Res.ok v) :
+    run ((MonadLiftT.monadLift r : M α) >>= f) os = run (f v) os := by
+  rw [run_bind, run_lift, h]
+theorem run_bind_lift_panic {α β : Type} (r : Res α) (f : α → M β) (os : Os) (w : String) (h : r = Res.panic w) :
+    run ((MonadLiftT.monadLift r : M α) >>= f) os = (Res.panic w, os) := by
+  rw [run_bind, run_lift, h]
+
+theorem uadd64_ok (mode : Mode) (a b : Nat) (h : a + b < 18446744073709551616) : uadd 64 mode a b = Res.ok (a + b) := by
+  unfold uadd chkU
+  have e : (((2:Nat)^64 : Nat) : Int) = 18446744073709551616 := by decide
+  rw [e, if_pos (by omega)]
+  congr 1
+theorem usub64_ok (mode : Mode) (a b : Nat) (h : b ≤ a) (ha : a < 18446744073709551616) : usub 64 mode a b = Res.ok (a - b) := by
+  unfold usub chkU
+  have e : (((2:Nat)^64 : Nat) : Int) = 18446744073709551616 := by decide
+  rw [e, if_pos (by omega)]
+  congr 1; omega
+
 end Inj.Rt
